@@ -79,6 +79,14 @@ func c15Elem(r *rand.Rand) c15El {
 			i = int64(r.IntN(41) - 20)
 		}
 		sp := fmt.Sprint(i)
+		if r.IntN(7) == 0 {
+			// a decimal integer written with leading zeros (yq reads 010 as ten, not as octal eight)
+			i = []int64{10, 17, 7, 11, 12, 100, 777, -10, -17, 20}[r.IntN(10)]
+			if i < 0 {
+				return c15El{ref.IntV(i), fmt.Sprintf("-0%d", -i)}
+			}
+			return c15El{ref.IntV(i), []string{"0", "00"}[r.IntN(2)] + fmt.Sprint(i)}
+		}
 		if i >= 0 && r.IntN(5) == 0 {
 			sp = fmt.Sprintf("0x%X", i)
 		} else if i >= 0 && r.IntN(8) == 0 {
